@@ -608,7 +608,10 @@ class File(resource.Resource, filepath.FilePath[str]):
         try:
             parsedRanges = self._parseRangeHeader(byteRange)
         except ValueError:
-            log.msg(f"Ignoring malformed Range header {byteRange.decode()!r}")
+            # The value is client-controlled and need not be UTF-8.
+            log.msg(
+                f"Ignoring malformed Range header {byteRange.decode('charmap')!r}"
+            )
             self._setContentHeaders(request)
             request.setResponseCode(http.OK)
             return NoRangeStaticProducer(request, fileForReading)
